@@ -6,6 +6,8 @@ mod memext;
 mod memhist;
 mod laws;
 mod pure;
+mod stdhist;
+mod wrap;
 use std::io::{BufRead, BufWriter, Write};
 
 pub fn hex(s: &[u8]) -> String {
@@ -21,6 +23,24 @@ pub fn unhex(s: &str) -> Vec<u8> {
 }
 pub fn unhex_s(s: &str) -> String {
     String::from_utf8(unhex(s)).expect("script strings are UTF-8")
+}
+
+fn hist_dispatch(fields: &[&str]) -> Option<String> {
+    if fields[0] == "entrydv" {
+        return Some(wrap::entrydv(fields));
+    }
+    if fields[0] != "hist" {
+        return None;
+    }
+    let ops = &fields[3..];
+    Some(match fields[1] {
+        "s" | "vs" => stdhist::run_std(fields[1], ops),
+        "mo" => stdhist::run_memfs_observed(ops),
+        "x" => stdhist::run_x(ops),
+        "dv" => wrap::same(memhist::run_hist("m", ops), memhist::run_hist("vm", ops)),
+        "sdv" => wrap::same(stdhist::run_std("s", ops), stdhist::run_std("vs", ops)),
+        m => memhist::run_hist(m, ops),
+    })
 }
 
 fn main() {
@@ -44,7 +64,7 @@ fn main() {
             continue;
         }
         let fields: Vec<&str> = line.split('\t').collect();
-        let res = std::panic::catch_unwind(|| pure::dispatch(&fields).or_else(|| laws::dispatch(&fields)).or_else(|| core::dispatch(&fields)).or_else(|| handles::dispatch(&fields)).or_else(|| if fields[0] == "hist" { Some(memhist::run_hist(fields[1], &fields[3..])) } else { None }));
+        let res = std::panic::catch_unwind(|| pure::dispatch(&fields).or_else(|| laws::dispatch(&fields)).or_else(|| core::dispatch(&fields)).or_else(|| handles::dispatch(&fields)).or_else(|| hist_dispatch(&fields)));
         match res {
             Ok(Some(r)) => writeln!(out, "{}", r).unwrap(),
             Ok(None) => writeln!(out, "UNKNOWN {}", fields[0]).unwrap(),
